@@ -295,6 +295,19 @@ impl<'s> Scheduler<'s> {
                 if CANCEL_COROUTINES.contains(&co_id) {
                     _ = CANCEL_COROUTINES.remove(&co_id);
                     warn!("Cancel coroutine:{} successfully !", co_id);
+                    // Report the cancellation through the state machine, the listeners
+                    // (e.g. the pool's worker accounting) must see this coroutine end.
+                    if let CoroutineState::Syscall(
+                        val,
+                        syscall,
+                        SyscallState::Callback | SyscallState::Timeout,
+                    ) = coroutine.state()
+                    {
+                        _ = coroutine.syscall(val, syscall, SyscallState::Executing);
+                    }
+                    if coroutine.running().is_ok() {
+                        _ = coroutine.cancel();
+                    }
                     continue;
                 }
                 cfg_if::cfg_if! {
